@@ -107,3 +107,23 @@ Definition calc_store_locked (g : fgen) (fn : string) : bool :=
   existsb (fun f => fgen_eqb (f_gen f) g && String.eqb (f_fn f) fn && String.eqb (f_target f) "atomic.StoreUint32") facts
   && forallb (fun f => negb (fgen_eqb (f_gen f) g && String.eqb (f_fn f) fn && String.eqb (f_target f) "atomic.StoreUint32")
                        || has_held f "partlock:R" || has_held f "partlock:W") facts.
+
+(* shared fields are only touched under their mutex: writes under the write lock, reads under the read or the
+   write lock (the partition table under partlock, the listener map under listenerMutex, the phase under
+   phaseMutex, the linked list of the v2 buffer under its lock) *)
+Definition lock_of (field : string) : string :=
+  if String.eqb field "partitions" then "partlock"
+  else if String.eqb field "listeners" then "listenerMutex"
+  else if String.eqb field "phase" then "phaseMutex"
+  else "lock".
+
+Definition access_guarded (f : fact) : bool :=
+  if String.eqb (f_action f) "write" then has_held f (lock_of (f_target f) ++ ":W")
+  else if String.eqb (f_action f) "read" then has_held f (lock_of (f_target f) ++ ":W") || has_held f (lock_of (f_target f) ++ ":R")
+  else true.
+
+Definition fields_guarded : bool := forallb access_guarded facts.
+
+(* ... and the check is not vacuous: the translator does see such accesses *)
+Definition field_accesses_seen : nat :=
+  List.length (filter (fun f => String.eqb (f_action f) "write" || String.eqb (f_action f) "read") facts).
